@@ -96,12 +96,13 @@ def build_result(ex, kind, shape_name='1d', nds=1, named=True, tag='', with_nan=
         badc = [bool(b) for b in bad]
         flavour = ex.choice(3, f'{tag}mdflavour')      # numbers, or free text with a trailing / leading blank
         if flavour == 0:
-            md = {'s0': {'a': 1, 'b': 2}, 's1': {'a': 1 + (5 if badc[0] else 0), 'b': 2 + (5 if badc[1] else 0)}}
+            # sample names NOT in alphabetical order: the reference is the first one given
+            md = {'zz-ref': {'a': 1, 'b': 2}, 'aa-new': {'a': 1 + (5 if badc[0] else 0), 'b': 2 + (5 if badc[1] else 0)}}
         else:
             pad = (lambda x: x + ' ') if flavour == 1 else (lambda x: ' ' + x)
-            md = {'s0': {'a': pad('JEFF-3.1.1'), 'b': pad('v 1')},
-                  's1': {'a': pad('ENDF-B7') if badc[0] else pad('JEFF-3.1.1'), 'b': pad('v 2') if badc[1] else pad('v 1')}}
-        info.update(expected_verdict=not any(badc), bad_keys=[k for k, b in zip('ab', badc) if b])
+            md = {'zz-ref': {'a': pad('JEFF-3.1.1'), 'b': pad('v 1')},
+                  'aa-new': {'a': pad('ENDF-B7') if badc[0] else pad('JEFF-3.1.1'), 'b': pad('v 2') if badc[1] else pad('v 1')}}
+        info.update(expected_verdict=not any(badc), bad_keys=[k for k, b in zip('ab', badc) if b], md=md)
         return TestMetadata(md, name='t-md').evaluate(), info
     if kind == 'stats_tasks':
         from valjean.gavroche.diagnostics.stats import TestStatsTasks
